@@ -43,7 +43,8 @@
 //!      fs=<file name>=<hex>;.. g=<probe get per key> n2=.. b2=..
 //! Oracle: no operation fails, every value served and every file left under a key's name was
 //! put for that key, books at quiescence, no indexed entry without a file, linearizable; sigs
-//! `disk-*` name the race the run contains (shared temporary name, put/remove, stale get).
+//! `disk-*` name the race the run contains (shared temporary name, put/remove, stale get, a get
+//! with an old index entry serving the file of a put that is not indexed yet).
 //!
 //! DynamicContainer: `dstress …` lines = free-running rounds on 2-4 real threads (no hooks, no
 //! model; the driver answers the constant `oracle-only`). The round number picks the shape of
@@ -1737,6 +1738,20 @@ mod real {
                     && ops.iter().any(|(u, j, o2, b)| u != t && o2.key() == Some(k) && overlap(*a, *b) && (matches!(o2, Op::Remove(_)) || (matches!(o2, Op::Get(_)) && took_expired(*u, *j))))
             })
         };
+        // (4) a get read the file (step G -> H) while another thread's put of the same key had
+        //     renamed its file into place but not indexed it yet (parked at E), and served that
+        //     put's bytes: the value is visible to this get before the index knows the key
+        let unindexed_read = ops.iter().any(|(t, i, o, _)| {
+            let Op::Get(k) = o else { return false };
+            let Some(rd) = out.d.steps.iter().position(|s| s.tid == *t && s.op == *i && s.before == 'G') else { return false };
+            let Some(v) = out.results[*t].get(*i).and_then(|r| r.strip_prefix('v')).and_then(unhex) else { return false };
+            ops.iter().any(|(u, j, o2, _)| {
+                u != t
+                    && matches!(o2, Op::Put(k2, v2, _) if k2 == k && *v2 == v)
+                    && out.d.steps.iter().position(|s| s.tid == *u && s.op == *j && s.after == 'E').is_some_and(|a| a < rd)
+                    && out.d.steps.iter().position(|s| s.tid == *u && s.op == *j && s.before == 'E').map_or(true, |b| b > rd)
+            })
+        });
         // no operation fails
         for (t, rs) in out.results.iter().enumerate() {
             for (i, r) in rs.iter().enumerate() {
@@ -1848,6 +1863,8 @@ mod real {
                     "disk-expired-get-deletes-fresh-put"
                 } else if (0..NKEYS).any(put_vs_remove) {
                     "disk-put-remove-index-without-file"
+                } else if unindexed_read {
+                    "disk-get-serves-unindexed-put"
                 } else {
                     "disk-not-linearizable"
                 };
